@@ -511,8 +511,12 @@ impl UnixStr {
 #[inline]
 #[expect(clippy::needless_range_loop)]
 fn buf_find(this_buf: &[u8], other_buf: &[u8]) -> Option<usize> {
+    // An empty needle is found at the start, same as `str::find`
+    let Some(first) = other_buf.first().copied() else {
+        return Some(0);
+    };
     for i in 0..this_buf.len() {
-        if this_buf[i] == other_buf[0] {
+        if this_buf[i] == first {
             let mut no_match = false;
             for j in 1..other_buf.len() {
                 if let Some(this) = this_buf.get(i + j) {
